@@ -30,7 +30,9 @@ def atom_sets():
     from mc import universe as U
 
     mixed = ase.Atoms("CSiAuC", positions=[(0.4, 0.4, 0.3), (2.0, 1.5, 1.9), (3.1, 2.2, 2.6), (1.2, 2.7, 3.8)], cell=(4, 3, 4), pbc=True)
-    return {"A1": U.atoms("A1"), "A2": U.atoms("A2"), "mixed4": mixed}
+    # an atomic column: same-element atoms on top of each other (they share pixels inside one slice) + one other element
+    column = ase.Atoms("C3Si", positions=[(1.3, 1.1, 0.6), (1.3, 1.1, 1.4), (1.3, 1.1, 3.1), (1.35, 1.12, 1.0)], cell=(4, 3, 4), pbc=True)
+    return {"A1": U.atoms("A1"), "A2": U.atoms("A2"), "mixed4": mixed, "column4": column}
 
 
 THICK = ["H", 2.0, 1.0, 0.5, [1.5, 2.5], [0.3, 3.7]]
@@ -38,7 +40,7 @@ THICK = ["H", 2.0, 1.0, 0.5, [1.5, 2.5], [0.3, 3.7]]
 
 def check(ctx):
     A = []
-    for name, n in (("A1", 2), ("A2", 3), ("mixed4", 4)):
+    for name, n in (("A1", 2), ("A2", 3), ("mixed4", 4), ("column4", 4)):
         for mask in range(1, 2 ** n - 1):
             if mask < (2 ** n - 1 - mask):  # unordered partitions
                 for proj in ("infinite", "finite"):
@@ -139,4 +141,13 @@ def run_case(c):
         expect = want if kind != "top" else 0  # Potential snaps z within 1e-10 of the top to z = 0
         if nz != [expect] and e <= 1.0:
             bad("potential/slice-of-atom/" + kind, "atom at z=%r (%s): potential appears in slices %r, expected [%d]" % (z, kind, nz, expect))
+    # (iii) all atoms stacked in ONE column (same x, y): contributions that land on the same pixels inside a slice must add up
+    col = ase.Atoms("C%d" % len(zs), positions=[(1.3, 1.1, z) for z, _, _ in zs], cell=(4, 3, H), pbc=True)
+    cproj = np.asarray(build(col, "infinite", st).array).sum(axis=0)
+    tr += 1
+    e = err(cproj, len(zs) * ref_proj, 1e-5, atol=1e-9)
+    worst = max(worst, e)
+    if not e <= 1.0:
+        bad("projection/column-not-additive", "%d atoms in one column: projected potential is %.4g x the single-atom projection (expected %d x)" % (
+            len(zs), float(cproj.max() / ref_proj.max()), len(zs)))
     return {"viol": viol, "obs": "%d slices" % ns, "nt": ns > 1, "tr": tr, "ref": tr, "err": worst}
